@@ -74,9 +74,29 @@ Definition conv_cpx (l : lit) : option cpx :=
   | LSup d => option_map (fun v => (v, fzero)) (parse_f64 d)
   | LImagUnit => Some (fzero, fone)
   end.
+(** Decimal::from_str on "ddd", "ddd.", "ddd.ddd" with at most 28 digits in all: the coefficient is the digit
+    string read as an integer and the scale is the number of digits after the point (exact, no rounding, and
+    10^28 < 2^96 so the coefficient always fits). Longer or malformed texts are left to the library (oracle). *)
+Definition parse_dec_exact (cs : list N) : option dec :=
+  let (ip, fp) := split_point cs in
+  match ip with
+  | [] => None
+  | _ =>
+      if forallb is_digit ip then
+        match fp with
+        | None => if (length ip <=? 28)%nat
+                  then Some {| d_neg := false; d_coef := digits_val 0 ip; d_scale := 0 |} else None
+        | Some fr => if forallb is_digit fr && (length ip + length fr <=? 28)%nat
+                     then Some {| d_neg := false; d_coef := digits_val 0 (ip ++ fr); d_scale := N.of_nat (length fr) |}
+                     else None
+        end
+      else None
+  end.
+Definition parse_dec (D : declib) (t : list N) : option dec :=
+  match parse_dec_exact t with Some d => Some d | None => d_parse D t end.
 Definition conv_dec (D : declib) (l : lit) : option dec :=
   match l with
-  | LNum t _ => d_parse D t
-  | LSup d => d_parse D d
+  | LNum t _ => parse_dec D t
+  | LSup d => parse_dec D d
   | LImagUnit => None
   end.
